@@ -382,7 +382,13 @@ def run(ctx):
     ctx.log("%d guard cases, %d full-core cases, %d destination spellings" % (len(cases), len(wcases), len(dests)))
     # a guard case costs ~0.1 ms and a full-core case ~4 ms: one chunk per worker, a single pool
     # (the quick tier is ~3 s of CPU: forking a pool costs more than it saves, so it runs in-process)
-    par.pmap_tally(chunk_fn, cases + wcases, ctx.tally, nchunks=par.NPROC, nproc=par.NPROC if len(cases) > 50000 else 1)
+    nproc = par.NPROC if len(cases) > 50000 else 1
+    if nproc > 1:
+        import gc
+
+        gc.collect()
+        gc.freeze()  # forked workers must not copy the parent's heap when their collector runs
+    par.pmap_tally(chunk_fn, cases + wcases, ctx.tally, nchunks=par.NPROC, nproc=nproc)
     t = ctx.tally
     ctx.log("counters: %s" % dict(sorted(t.extra.items())))
     if not t.nontrivial:
